@@ -21,6 +21,38 @@ pub struct Scenario {
     /// (client, at_ms): the client's socket moves to a fresh address (NAT rebinding)
     #[serde(default)]
     pub rebinds: Vec<(u8, u32)>,
+    /// datagrams an off-path/on-path attacker injects (C06)
+    #[serde(default)]
+    pub attacks: Vec<Attack>,
+}
+
+#[derive(Clone, Copy, Debug, Hash, PartialEq, Eq, Serialize, Deserialize)]
+pub enum AttackKind {
+    /// random bytes of the given length
+    Random { len: u16 },
+    /// verbatim copies of the `back`-th most recent genuine datagram that was sent to the target
+    Replay { back: u16, copies: u8 },
+    /// copy with bits flipped
+    Flip { back: u16, pos: u16, mask: u8 },
+    /// copy cut to `keep` bytes
+    Truncate { back: u16, keep: u16 },
+    /// copy with `extra` random bytes appended
+    Extend { back: u16, extra: u16 },
+    /// header part of one genuine datagram, body of another
+    Splice { back_a: u16, back_b: u16, cut: u16 },
+    /// copy with bits of the first byte toggled (reserved / fixed / key-phase / packet-number-length bits)
+    FirstByte { back: u16, mask: u8 },
+}
+
+#[derive(Clone, Copy, Debug, Hash, PartialEq, Eq, Serialize, Deserialize)]
+pub struct Attack {
+    pub at_us: u32,
+    /// target: the server (true) or client 0 (false)
+    pub to_server: bool,
+    /// source address: the genuine peer's (spoofed) or a foreign one
+    pub spoof_peer: bool,
+    pub kind: AttackKind,
+    pub seed: u64,
 }
 
 #[derive(Clone, Copy, Debug, Hash, PartialEq, Eq, Serialize, Deserialize)]
